@@ -317,6 +317,46 @@ theorem C19_postnatal_edges_added {p : Pars} {ti st : Rat} {s s' : State} (hpn :
       exact he.2.1.1
     · simp at hmoved
 
+/-! ### Parameters changed on an initialised sim -/
+
+/-- **Re-parameterised histories.** Whatever parameters each step is run with — gestation, age limits, layers changed
+    between steps through the parameter API of an initialised sim (`runP`: one `Pars` per step) — after any history every
+    agent is in exactly one of fecund / pregnant / post-partum, `child_uid[m] = c` implies `parent[c] = m`, and every
+    maternal edge joins a mother and her child. -/
+theorem C19_reparam_all_histories (ins : List (Pars × StepIn)) (ti : Nat) {s s' : State} (hi : ∀ i ∈ ins, i.2.ok)
+    (h : runP ti ins s = .ok s') (i : Inv s) :
+    (∀ a ∈ s'.agents, a.excl = true) ∧
+    (∀ (m : Nat) (a : Agent) (c : Nat), s'.agents[m]? = some a → a.child = some c →
+        ∃ b : Agent, s'.agents[c]? = some b ∧ b.parent = some m) ∧
+    (∀ e ∈ s'.pre ++ s'.post, ∃ b : Agent, s'.agents[e.p2]? = some b ∧ b.parent = some e.p1) := by
+  have i' := runP_inv ins ti hi h i
+  refine ⟨fun a ha => ok_excl (i'.ok a ha), i'.links, fun e he => ?_⟩
+  rcases List.mem_append.mp he with he | he
+  · exact i'.pre e he
+  · exact i'.post e he
+
+/-- a history with constant parameters is the special case of `runP` -/
+theorem C19_reparam_const (p : Pars) (ins : List StepIn) (ti : Nat) (s : State) :
+    runP ti (ins.map (fun i => (p, i))) s = run p ti ins s := runP_const p ins ti s
+
+/-- **One gestation parameter.** The code reads the gestation through two interfaces: in steps (`ti_delivery`, the prenatal
+    edge) and in years (the age of the conceived agent).  When the two agree (`Pars.coherent`, checked on every observed
+    `do_step`), a pregnancy conceived at step `ti ≥ 0` has `ti_delivery = ti + g`, and the conceived agent, aged once per
+    step, is `⌈g⌉` steps later — the delivery step by `C19_delivery_time` — of an age in `[0, dt_year)`. -/
+theorem C19_gestation_coherent (p : Pars) (hc : p.coherent) (hdt : 0 < p.dtYear) (ti : Nat) (d : Draws) (m u : Nat) (a : Agent) :
+    (a.setPrognoses p (ti : Rat) d u).tiDelivery = some ((ti : Rat) + p.durPreg) ∧
+    0 ≤ (embryo p (ti : Rat) d m).age + (p.durPreg.ceil : Rat) * p.dtYear ∧
+    (embryo p (ti : Rat) d m).age + (p.durPreg.ceil : Rat) * p.dtYear < p.dtYear := by
+  have hti : ¬ ((ti : Nat) : Rat) < 0 := by
+    have : (0 : Rat) ≤ (ti : Rat) := by exact_mod_cast Nat.zero_le ti
+    grind
+  have he : (embryo p (ti : Rat) d m).age = -(p.durPreg * p.dtYear) := by
+    unfold Pars.coherent at hc
+    simp only [embryo, hti, ↓reduceIte]; rw [hc]
+  refine ⟨rfl, ?_, ?_⟩
+  · rw [he]; exact (C19_newborn_age p.durPreg p.dtYear hdt).1
+  · rw [he]; exact (C19_newborn_age p.durPreg p.dtYear hdt).2
+
 /-! ### Non-vacuity -/
 
 def demoPars : Pars := { durPreg := 5 / 2, durPregYear := 5 / 8, dtYear := 1 / 4, minAge := 15, maxAge := 50,
@@ -369,5 +409,23 @@ example : (∀ i ∈ [conceiveIn, ({} : StepIn)], i.ok) ∧ (∀ a ∈ demoStart
     show (0 : Rat) ≤ if u = 0 then 0 else 1
     split <;> decide
   · exact ⟨Draws.default_ok, fun d hd => by simp at hd⟩
+
+/-- the hypotheses of `C19_gestation_coherent` are met by the demo parameters (5/2 steps of 1/4 year = 5/8 year) -/
+example : demoPars.coherent ∧ 0 < demoPars.dtYear := by decide +kernel
+
+/-- … and are needed: a module whose step value of the gestation is stale (9 monthly steps) while its value in years was
+    updated to 1/2 conceives agents at age −1/2 and delivers them 9 steps later aged +1/4, not within one step of 0 -/
+def staleGestation : Pars := { durPreg := 9, durPregYear := 1 / 2, dtYear := 1 / 12, minAge := 15, maxAge := 50,
+                               prenatal := true, postnatal := true, burnin := false }
+example : ¬ staleGestation.coherent ∧
+    ¬ ((embryo staleGestation 0 {} 0).age + (staleGestation.durPreg.ceil : Rat) * staleGestation.dtYear < staleGestation.dtYear) := by
+  decide +kernel
+
+/-- a re-parameterised history: nothing happens at step 0 under gestation 5/2; the gestation is then updated to 1 step
+    (1/4 year) and agent 0 conceives at step 1: her child enters at −1/4 and is delivered at step 2 -/
+def shortPars : Pars := { demoPars with durPreg := 1, durPregYear := 1 / 4 }
+example : (summarize (runP 0 [(demoPars, {}), (shortPars, conceiveIn), (shortPars, {})] demoStart)).map
+      (fun s => (s.rows.map (fun r => (r.pregnant, r.postpartum, r.age)), s.invariants)) =
+    some ([(false, true, 123 / 4), (false, false, 163 / 4), (false, false, 43 / 4), (false, false, 1 / 4)], true) := by decide +kernel
 
 end StarsimModel.C19
